@@ -71,7 +71,13 @@ def gen_card_seq(st: Stream, py: bool) -> List[List[Any]]:
     return [["slot", False], ["slot", True]] if st.chance(1, 2) else [card(), ["slot", False], ["slot", True]]
 
 
-def gen_cfg(st: Stream, kind: str) -> Dict[str, Any]:
+PORT_SIZES = (1, 1, 1, 2, 2, 3)
+SYSIMG_LENS = (0x100000, 0x100000, 0x100000, 0x40000, 0x80000, 0x100000 + 0x100, 0xFFFFF, 0x40001)
+
+
+def gen_cfg(st: Stream, kind: str, st2: Optional[Stream] = None) -> Dict[str, Any]:
+    """st2: stream of the round-5 dimensions (port-sized overlays, ROM-image entry points); drawn from a stream of
+    its own so that the older dimensions keep their values for a given (seed, shard, index)."""
     cfg: Dict[str, Any] = {"model": kind}
     py = kind.startswith("py")
     cpu = kind == "rs-cpu"
@@ -101,6 +107,13 @@ def gen_cfg(st: Stream, kind: str) -> Dict[str, Any]:
         elif r == 3:
             cfg["rom"] = {"k": 3 + st.below(3), "api": "slice"}
             cfg["map"] = True
+        if st2 is not None and st2.chance(1, 4):
+            # ROM image through the other public entry point: pce500::load_pce500_system_image (CoreRuntime) /
+            # load_pce500_system_image_into_memory + configure_pce500_memory_map (bare MemoryImage), with images of
+            # generated length: >= 1 MiB = the whole external space comes from the image, shorter = top window only
+            cfg["rom"] = {"k": 3 + st2.below(3), "api": "sysimg", "len": st2.choice(SYSIMG_LENS)}
+            cfg.pop("map", None)
+            r = r or 2
         if r:
             hard.append((M.ROM_LO, M.ROM_HI))
     seq = gen_card_seq(st, py)
@@ -152,6 +165,28 @@ def gen_cfg(st: Stream, kind: str) -> Dict[str, Any]:
         ovl.append({"kind": st.choice(("ram", "rom")), "start": lo, "size": size, "k": 8 + st.below(3)})
         if not overlap:
             soft.append((lo, hi))
+    # port-sized overlays (1-3 bytes: an I/O-port / ID-register window in the middle of plain memory, narrower than
+    # a 16/24-bit access), 1 configuration in 3; gen_ops places accesses at every alignment around them
+    if st2 is not None and st2.chance(1, 3):
+        for _ in range(st2.choice((1, 1, 2, 3))):
+            size = st2.choice(PORT_SIZES)
+            if ovl and st2.chance(1, 4):
+                o = st2.choice(ovl)           # next to / one byte away from an existing overlay
+                start = st2.choice((o["start"] + o["size"] + st2.below(2), o["start"] - size - st2.below(2)))
+            elif st2.chance(1, 2):
+                start = st2.choice(OVL_ANCHORS) + st2.below(6)
+            else:
+                start = 4 + st2.below(0xC0000 - 8)
+            lo, hi = start, start + size - 1
+            if lo < 0 or hi >= INT or _overlaps(lo, hi, hard):
+                continue
+            if not overlap and _overlaps(lo, hi, soft):
+                continue
+            if not py and cfg.get("mirror") and M.MIRROR_LO <= hi and lo <= M.MIRROR_HI:
+                continue
+            ovl.append({"kind": st2.choice(("ram", "rom")), "start": lo, "size": size, "k": 8 + st2.below(3)})
+            if not overlap:
+                soft.append((lo, hi))
     # overlays registered INSIDE the 256-byte internal window (1 configuration in 5): whether the internal memory
     # consults the overlay table is undocumented (model: "int-ovlp" cells), but every internal byte they do not
     # cover -- the key-port bytes 0xF0-0xF2 included -- must stay plain internal RAM.  Python: only next to a ROM
@@ -258,7 +293,21 @@ def _areas(m: M.Model) -> List[Tuple[int, int]]:
     return areas
 
 
-def gen_ops(st: Stream, m: M.Model, profile: str, nops: int) -> Tuple[List[List[Any]], List[str]]:
+def narrow_regions(m: M.Model) -> List[Tuple[int, int]]:
+    """Regions of the configured map (overlays, read-only ranges, overlap spans, card remainders) that are narrower
+    than the widest access (1-3 bytes) and lie in external space: an access can start before and end after them."""
+    out = []
+    for lo, hi, name, cls, _ in m.regions:
+        if hi - lo + 1 <= 3 and hi < INT and cls != "dev":
+            out.append((lo, hi))
+    for lo, hi in m.ovlp_spans:
+        if hi - lo + 1 <= 3 and hi < INT:
+            out.append((lo, hi))
+    return sorted(set(out))
+
+
+def gen_ops(st: Stream, m: M.Model, profile: str, nops: int, st2: Optional[Stream] = None
+            ) -> Tuple[List[List[Any]], List[str]]:
     """Generate a history; returns (ops, labels)."""
     allow_alias = profile in ("alias", "mixed")
     allow_edge = profile in ("edge", "mixed")
@@ -309,6 +358,7 @@ def gen_ops(st: Stream, m: M.Model, profile: str, nops: int) -> Tuple[List[List[
             lab += "+alias"
         return a & 0xFFFFFFFF, lab
 
+    narrow = narrow_regions(m) if st2 is not None else []
     tries = 0
     ovl = m.cfg.get("ovl") or []
     while len(ops) < nops and tries < nops * 8:
@@ -323,6 +373,22 @@ def gen_ops(st: Stream, m: M.Model, profile: str, nops: int) -> Tuple[List[List[
         n = bits // 8
         store = st.chance(11, 20)
         addr, lab = draw_addr()
+        if narrow and (allow_edge or allow_wild) and st2.chance(1, 6):
+            # around a region narrower than the access: every alignment from "last byte touches its first byte" to
+            # "first byte touches its last byte"; half of them ENCLOSING it (first and last byte outside) when the
+            # access is wide enough
+            lo, hi = st2.choice(narrow)
+            w = hi - lo + 1
+            if n >= w + 2 and st2.chance(1, 2):
+                a = lo - 1 - st2.below(n - w - 1)
+            else:
+                a = lo - (n - 1) + st2.below(n + w - 1)
+            if a >= 0:
+                addr = a
+                lab = "narrow"
+                if allow_alias and st2.chance(1, 4):
+                    addr = a + st2.below(256) * 0x1000000
+                    lab += "+alias"
         variant = "d"
         if m.py:
             variant = st.choice(("b", "t"))
@@ -367,9 +433,10 @@ def gen_case(seed: int, shard: int, index: int, kind: str, nops: int) -> Tuple[D
     # core.mix32 XORs its first two inputs before mixing, so (seed, shard) and (seed^d, shard^d) would collide;
     # scramble the seed on its own first
     st = Stream(mix32(mix32(seed, 0xC11C11), shard), index, 0xC11)
-    cfg = gen_cfg(st, kind)
+    st2 = Stream(mix32(mix32(seed, 0xC11C15), shard), index, 0xC115)
+    cfg = gen_cfg(st, kind, st2)
     m = M.Model(cfg)
     profile = st.choice(PROFILES)
-    ops, labels = gen_ops(st, m, profile, nops)
+    ops, labels = gen_ops(st, m, profile, nops, st2)
     case = {"cfg": cfg, "ops": ops, "sent_seed": st.u32() & 0xFFFF, "profile": profile}
     return case, labels
